@@ -100,6 +100,7 @@ def gen_jobs(tier, seed):
                 pos.append(rng.choice([1] + inst))
             m = worlds.mkmethod(f"m{j + 1}", j + 1, pos, prio=rng.choice([0, 0, 0, 1]))
             m["bare"] = rng.random() < 0.5
+            m["anyspell"] = (q % 4 == 1) and not m["bare"]
             methods.append(m)
         # not generated together: a bare class (type[list]) and a generic over a strict superclass of it
         # (type[Sequence[A]]).  The library orders the bare class below (tests/test_mro.py: inorder(Iterable[int], list))
